@@ -21,7 +21,8 @@ def run(c):
               "put (quick: boundaries + random, thorough and -mode=enum: every byte offset, exhaustive for that history); "
               "-mode=big: real 50 MB files around fileRotateSize and maxChunkSize. The first four -mode=big cases are scripted boundary probes: REAL bodies of "
               "maxChunkSize, max-1, max+1 bytes put, restarted and re-read, and sparse-file header probes of the tail reader at the same "
-              "three sizes, each compared with the model's writer/reader size predicates. Fault op: a waiting tail file vanishes "
+              "three sizes, each compared with the model's writer/reader size predicates. Fault ops: the body write of a put fails after k bytes (RLIMIT_FSIZE lowered around "
+              "the call; the failed body contains the image of a stored second and the next put is shorter), and a waiting tail file vanishes "
               "between the start-up scan and the tail read (model: OpenFile-error branch). ALL GetBucket calls of a case go through ONE reused "
               "scratch pad (as the agent's sender does), seconds with empty bodies are mixed in, and the model threads the pad (getP).  After every op the real ids/bytes/TotalFileSize, "
               "ref counts, read/write heads and a checksum of every file are compared with the Lean model. "
@@ -30,7 +31,7 @@ def run(c):
     c.assumptions += [
         "the file system keeps prefixes: a torn put leaves a prefix of header++body (the two WriteAt calls are not reordered), a torn erase a prefix of its 4 bytes",
         "file names (wall clock with nanoseconds) are strictly increasing, so name order = creation order",
-        "I/O error branches other than 'the waiting tail file is gone at OpenFile' (WriteAt/Seek failures, create errors) and the flock on run.lock are not modelled",
+        "I/O error branches other than 'the waiting tail file is gone at OpenFile' and 'the body WriteAt fails part way' (header WriteAt/Seek failures, create errors) and the flock on run.lock are not modelled",
         "crc32c is a parameter of the theorems (detection of corruption is reduced to crc distinguishing the byte strings)",
         "size-based rotation and the maxChunkSize limits are tied at predicate level (mode=big: observed behaviour on real 50 MB files / sparse files vs the model's `rotates`, `tooBigLen`, `badChunk`)",
     ]
@@ -40,6 +41,7 @@ def run(c):
     lem = ["Abs", "Inv", "Read", "Read2", "Read3", "Loop", "Drain", "Get", "Erase", "Erase2", "Erase3", "Drop", "Rotate", "NewFile",
            "Append", "Run", "GetLive", "Sizes", "Torn", "TornErase"]
     c.prove("SH.Props.C09", extra_files=["SH/Model/DiskCache.lean"] + [f"SH/Lemmas/DiskCache{x}.lean" for x in lem])
+    c.prove("SH.Lemmas.DiskCachePutFail")        # a failed body write leaves no file that can still be appended to
     c.prove("SH.Lemmas.DiskCacheLimits")         # writer/reader size limits agree; accounting when a waiting file vanishes
     c.prove("SH.Lemmas.DiskCachePad")            # GetBucket's result is independent of the reused scratch pad's previous contents
     c.prove("SH.Lemmas.DiskCacheBytes")          # first-round byte-level theorems, still audited one by one
@@ -82,6 +84,7 @@ META = {
              "never another second lost; the pre-fix loss is kept as a history-level decide witness), erased_never_returned, "
              "accepted_size_readable (every body size PutBucket accepts is accepted by the tail reader, all sizes; boundary maxChunkSize), "
              "acct_vanish/acct_skipMissing (size accounting when a waiting tail file vanishes before it is opened), "
+             "failed_put_leaves_no_garbage (a failed body write leaves no file that can be appended to; writing file = its records), "
              "getP_eq_get (the bytes GetBucket returns through the caller's REUSED scratch pad do not depend on the pad's previous "
              "contents), size_accounting (total = sum of file sizes, knownSize/waitingSize/unsent), file_removed (a file stays only while a "
              "known second or a head refers to it). Byte-level theorems of round one unchanged. The model is tied to the code by "
